@@ -303,6 +303,29 @@ func initTimeIntrinsics() {
 		visibleOp(fr, "yield")
 		return nil, true
 	})
+	// vp.Quiesce runs the other goroutines until none of them is enabled (timers are not fired)
+	reg(vpPkg+".Quiesce", func(fr *frame, a []value) (value, bool) {
+		m := fr.i
+		s := m.sch
+		if s == nil {
+			return nil, true
+		}
+		cur := m.curG
+		for {
+			others := s.enabled(cur)
+			if len(others) == 0 {
+				return nil, true
+			}
+			g, _ := s.pick(others, nil)
+			cur.blocked = func() bool { return true } // runnable again as soon as somebody yields back
+			cur.what = "quiesce"
+			s.switchTo(cur, g)
+			cur.blocked = nil
+			if s.fatal != nil && cur.isMain {
+				panic(s.fatal)
+			}
+		}
+	})
 	// vp.FireTimers lets every armed timer fire (in an order chosen by the scheduler)
 	reg(vpPkg+".FireTimer", func(fr *frame, a []value) (value, bool) {
 		s := fr.i.sch
